@@ -62,13 +62,26 @@ Definition count_case_ok (c : list int * int * int) : bool :=
   end &&
   ((Uint63.to_Z scn =? no_scan) || (len (nonempty_lines file) =? Uint63.to_Z scn)).
 
-(* dispatch case: (n*2^40 + a*2^20 + b, what the real simulator started for -lines a-b on a batch file with n
-   non-empty lines: log id * 2^20 + index of the non-empty line whose text it executed (2^20-1: none of them)) *)
-Definition disp_case_ok (c : int * list int) : bool :=
-  let '(h, obs) := c in
+(* dispatch case: one start of the real simulator on a batch file with n non-empty lines.
+   header = n*2^40 + a*2^20 + b; form: 0 "-lines a-b", 1 "-lines a-end", 2 "-lines b" (first b lines);
+   order: the options in the order they stood on the command line (0 -batch, 1 -lines, 2 -concurrent,
+   3 -logoutput, 4 -module batch, 5 -workingdir);
+   observed: log id * 2^20 + index of the non-empty line whose text it executed (2^20-1: none of them) *)
+Definition opt_of (n a b form code : Z) : opt Z :=
+  match code with
+  | 0 => OBatch 0 (Util.zrange 0 (Z.to_nat n))
+  | 1 => match form with 0 => OLinesRange a b | 1 => OLinesFrom a | _ => OLinesFirst b end
+  | 2 => OConcurrent 2
+  | 3 => OLogoutput
+  | 4 => OModule 1
+  | _ => OWorkingdir 0
+  end.
+
+Definition disp_case_ok (c : int * int * list int * list int) : bool :=
+  let '(h, form, order, obs) := c in
   let z := Uint63.to_Z h in
   let n := z / (sh20 * sh20) in let a := (z / sh20) mod sh20 in let b := z mod sh20 in
-  match executed (a, b) (Util.zrange 0 (Z.to_nat n)) with
+  match cmd_executed (map (fun code => opt_of n a b (Uint63.to_Z form) (Uint63.to_Z code)) order) with
   | Some l => list_eqb Z.eqb (map (fun p : Z * Z => fst p * sh20 + snd p) l) (map Uint63.to_Z obs)
   | None => false
   end.
